@@ -13,12 +13,20 @@
    - known finding [C09_insert_count_middle_refuted]: insert(pos, n, v) with pos < size() and a copy that throws while the gap
      is being filled leaves moved-from elements visible and live elements beyond size() (witness: size 5, pos 2, n 3, first
      copy throws) - recorded in known_findings.json, not repaired (needs a new roll-back helper).
+   - sets [C09_flatset_*]: FlatSet::operator=(const FlatSet&), insert(first, last) and restoreInvariants() are REGENERATED
+     from flatset.hpp (Gen/HintGen.v: the try block becomes a match on [thr : option (list Z)], [Some l'] = "an operation
+     of the vector threw and left the vector as l'", for ANY l' - the vector only promises the basic guarantee).  Whatever
+     l' is, what the set exposes after the exception is the ordered sequence of a set (adjacent elements strictly
+     increasing; with a transitive comparator: any two positions), it is l' itself when l' still was one, and empty otherwise.
    Everything else (allocation failures, every other operation and flavour, sets) is decided on the implementation by
    fault enumeration: for every scenario (operation x position x count x spare capacity or not x inline/heap x category x
    flavour) the k-th throwing-capable event throws, for every k until the operation completes; after each injected throw
    the element ledger, the allocator ledger, contents (strong operations: unchanged) and usability are checked. *)
-From Coq Require Import ZArith List Bool.
+From Coq Require Import ZArith List Bool Sorted.
 From Amc Require Import Throw.
+From Amc Require Hint HintTV.
+From Amc.Gen Require HintGen SsetGen.
+From Amc Require SsetTV.
 Import ListNotations.
 
 Theorem C09_resize_grow_strong :
@@ -61,3 +69,44 @@ Proof. exact uninit_fill_loop_spec. Qed.
 Theorem C09_insert_count_middle_refuted :
   exists m', Inv m5 5 9 /\ insert_cnt_th m5 (Some 0) 5 2 3 7%Z = Threw m' /\ m' 2 = Moved /\ m' 5 = Live 2%Z /\ ~ Inv m' 5 9.
 Proof. exact insert_count_middle_refuted. Qed.
+
+(* ---- sets: after copy assignment or insert(first, last) exits by an exception, a FlatSet still is a set ---- *)
+Theorem C09_flatset_restore_invariants_is_the_regenerated_one :
+  forall cmp l, Sorted (fun a b => cmp a b = true) (HintGen.restore_invariants_gen cmp l) /\
+    (HintGen.restore_invariants_gen cmp l = l \/ HintGen.restore_invariants_gen cmp l = []) /\
+    (Sorted (fun a b => cmp a b = true) l -> HintGen.restore_invariants_gen cmp l = l).
+Proof. intros cmp l. split; [exact (HintTV.restore_invariants_is_set cmp l)|split;
+  [exact (HintTV.restore_invariants_keeps_or_clears cmp l)|exact (HintTV.restore_invariants_keeps_sets cmp l)]]. Qed.
+
+Theorem C09_flatset_failed_insert_range_leaves_a_set :
+  forall cmp l vs l', exists r, HintGen.insert_range_gen cmp l vs (Some l') = inr r /\ Sorted (fun a b => cmp a b = true) r /\ (r = l' \/ r = []).
+Proof. intros cmp l vs l'. eexists. split; [exact (HintTV.insert_range_thrown cmp l vs l')|split;
+  [exact (HintTV.restore_invariants_is_set cmp l')|exact (HintTV.restore_invariants_keeps_or_clears cmp l')]]. Qed.
+
+Theorem C09_flatset_failed_copy_assign_leaves_a_set :
+  forall cmp l ol l', exists r, HintGen.copy_assign_gen cmp l ol false (Some l') = inr r /\ Sorted (fun a b => cmp a b = true) r /\ (r = l' \/ r = []).
+Proof. intros cmp l ol l'. eexists. split; [exact (HintTV.copy_assign_thrown cmp l ol l')|split;
+  [exact (HintTV.restore_invariants_is_set cmp l')|exact (HintTV.restore_invariants_keeps_or_clears cmp l')]]. Qed.
+
+Theorem C09_flatset_copy_assign_without_exception :
+  forall cmp l ol self, HintGen.copy_assign_gen cmp l ol self None = inl (if self then l else ol).
+Proof. exact HintTV.copy_assign_tv. Qed.
+
+Theorem C09_flatset_failed_operation_sorted_for_any_two_positions :
+  forall cmp l', (forall x y z, cmp x y = true -> cmp y z = true -> cmp x z = true) -> Hint.sorted cmp (HintGen.restore_invariants_gen cmp l').
+Proof. exact HintTV.restore_invariants_sorted. Qed.
+
+(* the hypotheses are met and both branches occur: the half-overwritten vector of the replay is given up, an ordered one kept *)
+Example C09_flatset_example :
+  HintGen.copy_assign_gen Z.ltb [2; 4; 6; 8; 10; 12]%Z [0; 8; 10]%Z false (Some [0; 8; 6; 8; 10; 12]%Z) = inr [] /\
+  HintGen.copy_assign_gen Z.ltb [2; 4; 6]%Z [0; 8; 10]%Z false (Some [0; 4; 6]%Z) = inr [0; 4; 6]%Z.
+Proof. split; vm_compute; reflexivity. Qed.
+
+(* SmallSet::operator=(const SmallSet&), regenerated from smallset.hpp: whatever the inline vector and the backing set were left
+   with by the exception (any two lists), the set is left empty - a set - and the exception leaves *)
+Theorem C09_smallset_failed_copy_assign_leaves_the_empty_set :
+  forall vec set ovec oset left, SsetGen.copy_assign_gen vec set ovec oset false (Some left) = inr ([], []).
+Proof. exact SsetTV.copy_assign_thrown. Qed.
+Theorem C09_smallset_copy_assign_without_exception :
+  forall vec set ovec oset self, SsetGen.copy_assign_gen vec set ovec oset self None = inl (if self then (vec, set) else (ovec, oset)).
+Proof. exact SsetTV.copy_assign_tv. Qed.
